@@ -62,6 +62,8 @@ type Contract struct {
 	KeyType  string
 	Checks   []*Clause
 	Decreases *Clause
+	Iface    bool            // contract of an interface method: every implementation is verified against it
+	Impls    []string        // keys of the implementing methods
 }
 
 var clauseHead = regexp.MustCompile(`^(keys|check|mode|ghost|requires|ensures|modifies|loop|bound|iface|maynil|inline|trusted|panics-if|nosafety|maxpaths|alias|decreases)\b(.*)$`)
